@@ -607,8 +607,13 @@ theorem cache_layout_facts :
     Dud.Facts.minChecksumLen = 3 ∧
     Dud.Facts.commitBytesOrder =
       ["os.CreateTemp", "os.Remove", "checksum.Checksum", "os.MkdirAll", "os.Rename", "os.Chmod"] ∧
-    Dud.Facts.commitTempDir = "$recv.dir" ∧ Dud.Facts.commitRenameArgs = "$param1,$local<$recv.PathForChecksum>" ∧
-    Dud.Facts.commitChmodArgs = "$local<$recv.PathForChecksum>,cacheFilePerms" := by decide
+    -- the temp file is created in the cache's own directory; what is renamed is the caller's file or that temp file, the
+    -- target (and what is made read-only) derives from PathForChecksum applied to the result of checksum.Checksum
+    -- ("derives from": flow-insensitive, looking through same-package helpers; tools/factgen/deep.go)
+    Dud.Facts.commitTempDir = "$recv,field:dir" ∧
+    Dud.Facts.commitRenameArgs =
+      "src:$param1,$recv,call:os.CreateTemp;dst:$recv,call:PathForChecksum,call:checksum.Checksum,call:os.CreateTemp" ∧
+    Dud.Facts.commitChmodArgs = "$recv,call:PathForChecksum,call:checksum.Checksum,call:os.CreateTemp;cacheFilePerms" := by decide
 
 /-! ## non-vacuity -/
 
